@@ -250,6 +250,7 @@ func dbsimMain(c *Ctx) {
 		tape := simrt.NewTape(seed)
 		out := runDBCase(c, dc, tape, c.Mode)
 		c.Res.Runs++
+		c.RunHash(out.trace, out.pickHash, histDigest(out.hist))
 		c.Res.Evaluations += len(out.hist)
 		c.Res.SimSeconds += out.simTime.Seconds()
 		c.Count("sched-steps", out.steps)
@@ -494,4 +495,12 @@ func analyzeResources(trace []simrt.Event) (vs []dbViolation, maxExcess int) {
 		}
 	}
 	return
+}
+
+func histDigest(h []*opRec) string {
+	var sb strings.Builder
+	for _, op := range h {
+		fmt.Fprintf(&sb, "%d:%s:%s:%s:%v:%d:%d:%s;", op.ID, op.Kind, op.Key, op.Val, op.Found, op.Inv, op.Ret, op.Err)
+	}
+	return fmt.Sprintf("%x", hash64(sb.String()))
 }
